@@ -162,6 +162,9 @@ def check_c12(tier):
     ress = run_space(exe, "c12s", tier, os.path.join(b.dir, "c12s.out"), extra=["--seqdepth", "6" if tier == "thorough" else "5"])
     add_violations(rep, ress, "C12")
     results.append(ress)
+    resw = run_space(exe, "c12w", tier, os.path.join(b.dir, "c12w.out"))
+    add_violations(rep, resw, "C12")
+    results.append(resw)
     resh = run_space(exe, "c12h", tier, os.path.join(b.dir, "c12h.out"))
     add_violations(rep, resh, "C12")
     results.append(resh)
